@@ -153,6 +153,23 @@ impl PacketBuilder {
         (self.get_packet_type() & 0xF0) == 0x30
     }
 
+    /// Verification hook: `(phase, header bytes buffered, remaining length, payload bytes buffered)`
+    /// with phase 0 = fixed header, 1 = remaining length, 2 = payload.
+    #[cfg(mqtt_protocol_core_verif)]
+    pub fn verif_state(&self) -> (u8, usize, usize, usize) {
+        let phase = match self.state {
+            ReadState::FixedHeader => 0,
+            ReadState::RemainingLength => 1,
+            ReadState::Payload => 2,
+        };
+        (
+            phase,
+            self.header_buf.len(),
+            self.remaining_length,
+            self.raw_buf_offset,
+        )
+    }
+
     /// Build packet from data stream
     pub fn feed(&mut self, data: &mut Cursor<&[u8]>) -> PacketBuildResult {
         let available = data.get_ref().len() as u64 - data.position();
